@@ -82,8 +82,8 @@ def evaluate(h, live, seq):
     clear = g["clear_true_singleton"]
 
     def construct(c, variant):
-        args = [Tok(100 + variant, f"arg{variant}")]
-        kw = {"k": Tok(200 + variant, f"kw{variant}")}
+        args = [Tok(100 + variant, f"arg{variant}")] if variant != 1 else []       # "whatever arguments are passed": with and without
+        kw = {"k": Tok(200 + variant, f"kw{variant}")} if variant != 9 else {}
         before = len(log.items)
         out = h.call(g[c], *args, **kw)
         new = log.items[before:]
@@ -113,7 +113,7 @@ def evaluate(h, live, seq):
                 if len(new) != 1:
                     return f"{c}(...) with no live instance ran __init__ {len(new)} times", sample
                 rec = new[0].items
-                if not (rec[0] == c and rec[1] is v and len(rec[2].items) == 1 and rec[2].items[0] is args[0] and [p[1] for p in rec[3].pairs] == [kw["k"]]):
+                if not (rec[0] == c and rec[1] is v and len(rec[2].items) == len(args) and all(x is y for x, y in zip(rec[2].items, args)) and [p[1] for p in rec[3].pairs] == list(kw.values())):
                     return f"{c}(...) constructed with other arguments than the call's: {new[0]!r}", sample
                 table[c] = v
             if not (isinstance(v, Obj) and v.cls is g[c]):
